@@ -525,7 +525,7 @@ fn strategy(mutated: bool) -> impl Strategy<Value = Case> {
     })
 }
 
-pub const SIG_RECALL_ARITY: &str = "stack underflow: recall with fewer arguments than the recall block declares is accepted";
+pub const SIG_RECALL_ARITY: &str = "recall with fewer arguments than the recall block declares is accepted";
 
 /// `recall name(args)` sites whose argument count is below the block's parameter count.
 fn short_recall(p: &Prog) -> bool {
@@ -554,19 +554,95 @@ fn short_recall(p: &Prog) -> bool {
 
 pub const SIG_INCOMPLETE_STRUCT: &str = "struct literal omitting a declared field is accepted";
 
-/// A struct literal (without composition sources) that sets fewer fields than its definition has.
+/// Struct type name of an expression, as far as it can be read off syntactically.
+fn struct_name_of(p: &Prog, e: &Expr, lets: &[(String, Expr)], params: &[(String, Ty)], depth: u32) -> Option<String> {
+    if depth > 8 {
+        return None;
+    }
+    let of_ty = |t: &Ty| if let Ty::Struct(n) = t { Some(n.clone()) } else { None };
+    match e {
+        Expr::StructLit { name, .. } => Some(name.clone()),
+        Expr::Substruct(_, n) | Expr::Cast(_, n) => Some(n.clone()),
+        Expr::Var(v) => {
+            if let Some((_, t)) = params.iter().find(|(n, _)| n == v) {
+                return of_ty(t);
+            }
+            if let Some((_, g)) = p.globals.iter().find(|(n, _)| n == v) {
+                return struct_name_of(p, g, lets, params, depth + 1);
+            }
+            lets.iter().filter(|(n, _)| n == v).find_map(|(_, x)| struct_name_of(p, x, lets, params, depth + 1))
+        }
+        Expr::Call(f, _) => p.func(f).and_then(|f| of_ty(&f.ret)),
+        Expr::Dot(x, f) => {
+            let s = struct_name_of(p, x, lets, params, depth + 1)?;
+            p.struct_fields(&s)?.iter().find(|(n, _)| n == f).and_then(|(_, t)| of_ty(t))
+        }
+        Expr::If(_, t, f) => struct_name_of(p, &t.value, lets, params, depth + 1).or_else(|| struct_name_of(p, &f.value, lets, params, depth + 1)),
+        Expr::Block(b) => struct_name_of(p, &b.value, lets, params, depth + 1),
+        Expr::Match(_, arms) => arms.iter().find_map(|(_, x)| struct_name_of(p, x, lets, params, depth + 1)),
+        Expr::Coalesce(_, b) => struct_name_of(p, b, lets, params, depth + 1),
+        _ => None,
+    }
+}
+
+/// A struct literal that, after resolving its `...source` compositions as far as the source
+/// types can be read off the program, sets fewer fields than its definition has.
 fn incomplete_struct_literal(p: &Prog) -> bool {
-    let mut q = p.clone();
     let mut found = false;
-    walk_nodes(&mut q, &mut |n| {
-        if let Node::Expr(Expr::StructLit { name, fields, sources }) = n {
-            if let Some(def) = p.struct_fields(name) {
-                if sources.is_empty() && def.iter().any(|(d, _)| !fields.iter().any(|(f, _)| f == d)) {
-                    found = true;
+    let mut scan = |body: &Vec<Stmt>, params: &[(String, Ty)]| {
+        let mut b = body.clone();
+        let mut lets: Vec<(String, Expr)> = Vec::new();
+        let mut lits: Vec<Expr> = Vec::new();
+        let mut visit = |n: Node<'_>| match n {
+            Node::Stmts(v) => {
+                for s in v.iter() {
+                    if let Stmt::Let(n, e) = s {
+                        lets.push((n.clone(), e.clone()));
+                    }
                 }
             }
+            Node::Expr(e) => {
+                if matches!(e, Expr::StructLit { .. }) {
+                    lits.push(e.clone());
+                }
+            }
+            _ => {}
+        };
+        crate::walk::walk_body(&mut b, &mut visit);
+        for l in &lits {
+            let Expr::StructLit { name, fields, sources } = l else { continue };
+            let Some(def) = p.struct_fields(name) else { continue };
+            let mut have: Vec<String> = fields.iter().map(|f| f.0.clone()).collect();
+            let mut unknown = false;
+            for s in sources {
+                match struct_name_of(p, &Expr::Var(s.clone()), &lets, params, 0).and_then(|n| p.struct_fields(&n)) {
+                    Some(fs) => have.extend(fs.into_iter().map(|f| f.0)),
+                    None => unknown = true,
+                }
+            }
+            if !unknown && def.iter().any(|(d, _)| !have.contains(d)) {
+                found = true;
+            }
         }
-    });
+    };
+    for f in &p.funcs {
+        scan(&f.body, &f.params);
+    }
+    for f in &p.finish_fns {
+        scan(&f.body, &f.params);
+    }
+    for c in &p.commands {
+        let this = vec![("this".to_string(), Ty::Struct(c.name.clone()))];
+        scan(&c.policy, &this);
+        for r in &c.recalls {
+            let mut ps = r.params.clone();
+            ps.extend(this.clone());
+            scan(&r.body, &ps);
+        }
+    }
+    for a in &p.actions {
+        scan(&a.body, &a.params);
+    }
     found
 }
 
@@ -617,7 +693,7 @@ fn check(c: &Case, info: &mut CaseInfo) -> CheckResult {
                         ErrKind::UnknownMember => "accepted program ends in an unknown struct member",
                         _ => "accepted program ends in another machine error",
                     };
-                    let sig = if *k == ErrKind::StackUnderflow && short_recall(&c.prog) {
+                    let sig = if matches!(k, ErrKind::StackUnderflow | ErrKind::TypeMismatch | ErrKind::UnknownMember | ErrKind::UndefinedVar) && short_recall(&c.prog) {
                         SIG_RECALL_ARITY
                     } else if matches!(k, ErrKind::TypeMismatch | ErrKind::UnknownMember | ErrKind::Other) && (incomplete_struct_literal(&c.prog) || c.mutation.starts_with("struct literal")) {
                         SIG_INCOMPLETE_STRUCT
@@ -637,7 +713,7 @@ fn check(c: &Case, info: &mut CaseInfo) -> CheckResult {
 pub fn run(ctx: &Ctx) -> ! {
     let mut rep = Report::new(ctx, "exploration");
     rep.assume("allowed ends: any ExitReason, I/O errors (incl. InvalidFact = update of a missing/mismatching fact), FFI errors, stack exhaustion; every other MachineError of an accepted program is a violation");
-    let n = ctx.pick(8_000, 200_000);
+    let n = ctx.pick(20_000, 400_000);
     rep.explore(
         "well_typed",
         "all generated programs (functions, commands with recall blocks, finish functions, actions), every entry point executed on generated inputs and initial facts; the VM must not end in a machine error other than I/O / FFI / stack exhaustion",
